@@ -73,7 +73,8 @@ if meta.get("confirmed") or "--force" in extra:
     try:
         for p in [prop] + [e for e in extra if e.startswith("C")]:
             t = time.time()
-            r = subprocess.run("./check %s" % p, shell=True, cwd="/verif", capture_output=True, text=True, timeout=3000)
+            r = subprocess.run("./check %s" % p, shell=True, cwd="/verif", capture_output=True, text=True, timeout=3000,
+                               env=dict(os.environ, VERIF_EVIDENCE_DIR="/tmp/verif_evidence_seeded"))
             lines = [l for l in r.stdout.split("\n") if l.startswith("VIOLATION")]
             results[p] = dict(exit=r.returncode, violation_lines=lines, wall_s=round(time.time() - t, 1))
             rep = None
